@@ -107,6 +107,14 @@ def kernel(ctx):
             r = ctx.src.resolve(fns.module, node.value.func.id)
             if r and r[0] == "func" and r[1] not in callees:
                 callees.append(r[1])
+    if len(callees) > 1:
+        # early exits may hand back the result of another helper (the values for a vacuum): the kernel is the tail call that
+        # ends the function
+        last = fns.node.body[-1]
+        if isinstance(last, ast.Return) and isinstance(last.value, ast.Call) and isinstance(last.value.func, ast.Name):
+            r = ctx.src.resolve(fns.module, last.value.func.id)
+            if r and r[0] == "func":
+                callees = [r[1]]
     if len(callees) != 1:
         from ptstat import AnalysisError
         raise AnalysisError(f"expected neutron_scattering to return the result of one package function, found {callees}")
